@@ -50,7 +50,7 @@ theorem owners_zero {v : Variant} {w : World} (h : Inv v w) (d : Nat × Nat)
 theorem inv_addScreen {v : Variant} {w : World} (h : Inv v w) (d : Nat × Nat)
     (hd : hasScreen w.screens d = false) :
     Inv v { w with screens := addScreen w.screens d } := by
-  refine ⟨h.nodup, h.bound, h.live, h.dead, h.counters, ?_, ?_, ?_⟩
+  refine ⟨h.nodup, h.bound, h.live, h.dead, h.counters, ?_, ?_, ?_, h.ptr⟩
   · intro s hs
     rcases (mem_addScreen _ _ _).mp hs with hs | rfl
     · exact h.refs s hs
@@ -85,7 +85,7 @@ theorem inv_moveRef {v : Variant} {w : World} (h : Inv v w) (i : Nat) (c : Conn)
       (fun c => { c with scr := d })) := by
   have hl := h.live i c hc hi
   have hrefc : c.refHeld = true := hl.2.2.1
-  refine ⟨h.nodup, ?_, ?_, ?_, h.counters, ?_, ?_, ?_⟩
+  refine ⟨h.nodup, ?_, ?_, ?_, h.counters, ?_, ?_, ?_, h.ptr⟩
   · intro j hj; simpa using h.bound j hj
   · intro j cj hcj hj
     rw [modConn_get] at hcj
